@@ -21,7 +21,7 @@ RULE = ("S-TEXT (in-process, real preamble, parse_y86_hcl + Error::format_for_co
         "S-BYTES (the real binary on files of arbitrary bytes incl. invalid UTF-8, NUL, BOM; --check and a 3-cycle run): exit "
         "status 0 or 1, 'error:' on stderr iff 1, no panic, no internal error, no hang (60 s). "
         "S-REGION: show_region on arbitrary texts and spans incl. usize::MAX (no panic; model correspondence). "
-        "S-DISASM / S-TRACE (as in C20): every first-two-byte combination through the real disassembler and the trace line of "
+        "S-DUMP (as in C16): the state dump of designs with register names of 1 to 80 characters and widths up to 128 must print (no panic). S-DISASM / S-TRACE (as in C20): every first-two-byte combination through the real disassembler and the trace line of "
         "real cycles at random pcs over random memory, under catch_unwind: whatever bytes a program makes the simulator fetch, "
         "printing the trace line must not panic. "
         "non-trivial = rejected or malformed inputs; distinct = distinct texts.")
@@ -107,10 +107,16 @@ def judge_nopanic(req, impl, model, spec):
             "cats": ["disasm" if req.startswith("(disasm") else "trace"]}
 
 
+def judge_dump(req, impl, model, spec):
+    ok = impl != "PANIC"
+    return {"corr": True, "oracle": ok, "what": "" if ok else "printing the state dump panicked", "key": req, "cats": ["dump"]}
+
+
 def streams(tier, seed):
     q = tier == "quick"
     return [{"name": "text", "stream": "anytext", "count": 4000 if q else 300000, "judge": judge_text},
             {"name": "bytes", "stream": "bytes", "count": 1500 if q else 60000, "pygen": pygen, "judge": judge_bytes},
             {"name": "region", "stream": "region", "count": 10000 if q else 500000, "judge": judge_region},
             {"name": "disasm", "stream": "disasm", "count": 2 if q else 10, "judge": judge_nopanic},
+            {"name": "dump", "stream": "dump", "count": 1500 if q else 30000, "judge": judge_dump},
             {"name": "trace", "stream": "trace", "count": 1500 if q else 50000, "judge": judge_nopanic}]
